@@ -314,10 +314,18 @@ pub fn run(args: &Args) {
     let mut evaluations = 0usize;
     let n = if args.thorough() { 1500 } else { 400 };
     let max_variants = if args.thorough() { 16 } else { 12 };
-    for k in 0..n {
-        let mut g = Gen { rng: &mut rng, loop_counter: 0 };
-        let depth = 2 + (k % 2) as u32;
-        let mut prog = g.program(depth, 4);
+    let nests = nest_matrix(&mut rng, args.thorough(), 40);
+    let n_nests = nests.len();
+    let mut nests = nests.into_iter();
+    for k in 0..(n + n_nests) {
+        let mut prog = if let Some((_, p)) = nests.next() {
+            sum.count("nesting_matrix_programs");
+            p
+        } else {
+            let mut g = Gen { rng: &mut rng, loop_counter: 0 };
+            let depth = 2 + (k % 2) as u32;
+            g.program(depth, 4)
+        };
         let src = print_program(&mut prog);
         let orig = match run_program(&src, &RunOpts { budget: 30_000, ..Default::default() }) {
             Outcome::Ran(r) => r,
@@ -417,6 +425,6 @@ pub fn run(args: &Args) {
     sum.write(
         &args.out,
         evaluations,
-        "every generated core program (nesting depth 2-3, all loop kinds incl. negative and run-time computed STEP, SELECT with 0-3 CASE blocks) x every applicable site x every rule {for-as-while, for-step-1, while-as-do-while, do-while-as-while, do-until-as-do-while-not, select-as-if-chain, block-if-as-single-line-if, body-in-if-true} (bounded, seeded selection of sites per program); original and rewritten program run on the real implementation and compared on output, end (error code) and the original's variables; each rewritten program also compared with the reference semantics in Coq. Repository programs (fixtures + test literals) rewritten textually by for-step-1 and while-as-do-while. Non-trivial = distinct rewritten programs.",
+        "the nesting matrix (every loop-branch-loop triple over five loop kinds with different bounds and steps and five branch positions, plus a seeded sample of the other triples; all 1000 triples in the thorough tier) and every generated core program (nesting depth 2-3, all loop kinds incl. negative and run-time computed STEP, SELECT with 0-3 CASE blocks) x every applicable site x every rule {for-as-while, for-step-1, while-as-do-while, do-while-as-while, do-until-as-do-while-not, select-as-if-chain, block-if-as-single-line-if, body-in-if-true} (bounded, seeded selection of sites per program); original and rewritten program run on the real implementation and compared on output, end (error code) and the original's variables; each rewritten program also compared with the reference semantics in Coq. Repository programs (fixtures + test literals) rewritten textually by for-step-1 and while-as-do-while. Non-trivial = distinct rewritten programs.",
     );
 }
